@@ -81,8 +81,11 @@ def readMid (b : Bytes) (version : Nat) : Except Fault (Option TxMd × Nat × Na
   else .error .newerVersion
 
 /-- The records common to versions 0 and 1, read from offset `i`: Eh, BlTxID (checked against
-the already decoded `id`), BlRoot. `copy` never panics but `b[i:]` and `Uint64` do. -/
+the already decoded `id`), BlRoot, after
+`if len(b) < i+sha256.Size+txIDSize+sha256.Size { return ErrCorruptedData }`.
+`copy` never panics but `b[i:]` and `Uint64` do (not reachable behind the length check). -/
 def readTail (b : Bytes) (i : Nat) (id : Nat) : Except Fault (Bytes × Nat × Bytes) :=
+  if b.length < i + hashSize + Gen.storeTxIDSize + hashSize then .error .corrupted else
   match sliceFrom b i with
   | .error f => .error f
   | .ok s1 =>
